@@ -375,6 +375,8 @@ class LibRDEngine(RDEngineBase) :
 
     def iterate_n(self, n_iterations) :
         
+        if n_iterations <= 0 : # nothing to iterate: the completion status does not change
+            return bool(self._simulation_unfinished)
         self._simulation_unfinished = self._lib.engineexport_iterate_n(n_iterations)
         return bool(self._simulation_unfinished)
 
